@@ -20,7 +20,7 @@ VARIABLES view, done
 ovars == <<view, done>>
 
 T0 == 100 * 4          \* roEdStart: 100 s after the base instant
-Zone(z) == z * 134217728       \* 2^27: the UTC-offset designator of a time (0 none, 1 "Z", 2 "+01:00")
+Zone(z) == z * 134217728       \* 2^27: the UTC-offset designator of a time (0 none, 1 "Z", 2 "+01:00", 3 "-05:00")
 
 TShape(md, sd, tt, mt, st, en) == [md |-> md, sd |-> sd, tt |-> tt, mt |-> mt, st |-> st, en |-> en]
 TShapes(i) ==
@@ -38,7 +38,10 @@ TShapes(i) ==
     TShape("payload", Some(24), Nil, Nil, Nil, Some(8000 + 40*i)),
     TShape("payload", Nil, Nil, Nil, Some(4000 + 40*i), Some(4100 + 40*i)),
     TShape("payload", Some(24), Nil, Nil, Some(Zone(1) + 4000 + 40*i), Nil),          \* explicit times with a UTC offset
-    TShape("payload", Nil, Nil, Nil, Some(Zone(2) + 4000 + 40*i), Some(Zone(2) + 4100 + 40*i)) }
+    TShape("payload", Nil, Nil, Nil, Some(Zone(2) + 4000 + 40*i), Some(Zone(2) + 4100 + 40*i)),
+    TShape("payload", Some(24), Nil, Nil, Some(Zone(3) + 4000 + 40*i), Nil),          \* an offset west of Greenwich
+    TShape("payload", Nil, Some(20 + i), Some(0 - 60), Nil, Nil),                     \* a negative MediaTime: the sums are sums
+    TShape("payload", Some(0 - 10), Nil, Nil, Nil, Nil) }
 
 ItemView(id, full) ==
   [id |-> id, slug |-> "slug " \o id,
@@ -71,7 +74,7 @@ TimingViews ==
 
 Alphabet == {32, 9, 10, 160, 40, 41, 60, 62, 97}      \* space tab newline nbsp ( ) < > a
 (* carriage return, thin space, full-width ( ), a combining accent: one character shorter *)
-Extra == {13, 8201, 65288, 65289, 769}
+Extra == {13, 8201, 65288, 65289, 769, 91, 93, 123, 125}         \* ... and [ ] { }
 Texts == UNION { [1..k -> Alphabet] : k \in 0..MaxLen } \cup UNION { [1..k -> Alphabet \cup Extra] : k \in 0..(MaxLen - 1) }
 DurShape == TShape("payload", Some(20), Nil, Nil, Nil, Nil)
 
